@@ -4,7 +4,7 @@
 From Coq Require Import List ZArith Bool Lia.
 From BLB Require Import Gen.Consts.
 From BLB Require Cluster.Model.
-From BLB Require Import C14.Model C14.Proofs C14.Run C14.Late C14.InvFrame C14.InvStore C14.InvVer.
+From BLB Require Import C14.Model C14.Proofs C14.Run C14.Late C14.InvFrame C14.InvStore C14.InvVer C14.InvPool.
 Import ListNotations.
 Open Scope Z_scope.
 
@@ -79,7 +79,8 @@ Record RInv1 (fx : fixes) (st : state) (r : round) : Prop := {
   ri_wfc : forall e1 e2 c, In e1 (rd_encs r) -> In e2 (rd_encs r) -> in_range e1 c = true -> in_range e2 c = true -> e_base e1 = e_base e2;
   ri_wft : forall e1 e2 tk, In e1 (rd_encs r) -> In e2 (rd_encs r) -> in_chunks tk e1 = true -> in_chunks tk e2 = true -> e_base e1 = e_base e2;
   ri_nodupb : NoDup (map e_base (rd_encs r));
-  ri_w1 : forall e, In e (rd_encs r) -> e_stage e = 3 \/ e_stage e = 5 -> e_wait e = 1
+  ri_w1 : forall e, In e (rd_encs r) -> e_stage e = 3 \/ e_stage e = 5 -> e_wait e = 1;
+  ri_hosts : forall e, In e (rd_encs r) -> e_hosts e = [] -> e_stage e = 9
 }.
 
 Record RInv (fx : fixes) (st : state) : Prop := {
@@ -98,7 +99,7 @@ Definition pR (st : state) := (s_pool st, s_next st, s_rounds st, s_wops st, s_f
 Lemma RInv1_pR fx st st' r : pR st' = pR st -> (forall h tk nv, bumped st h tk nv -> bumped st' h tk nv) ->
   RInv1 fx st r -> RInv1 fx st' r.
 Proof.
-  unfold pR. intros H Hb [A B C D E F G I J K L M]. injection H as H1 H2 H3 H4 H5 H6.
+  unfold pR. intros H Hb [A B C D E F G I J K L M N0]. injection H as H1 H2 H3 H4 H5 H6.
   constructor; rewrite ?H1, ?H4; try assumption.
   - intros e He S tk h s nv Hin. destruct (G e He S tk h s nv Hin) as [G1 G2]. split; [rewrite H1; exact G1|].
     intros Z0. apply Hb. exact (G2 Z0).
@@ -172,7 +173,7 @@ Lemma RInv1_pool fx st st' r :
   (forall h tk nv, bumped st h tk nv -> bumped st' h tk nv) ->
   RInv1 fx st r -> RInv1 fx st' r.
 Proof.
-  intros HF HW Hb [A B C D E F G I J K L M].
+  intros HF HW Hb [A B C D E F G I J K L M N0].
   assert (Own: forall pe, p_owner pe = rd_op r -> (In pe (s_pool st') <-> In pe (s_pool st))).
   { intros pe O. assert (O': owned (rd_op r) pe = true) by (unfold owned; apply Z.eqb_eq; exact O).
     split; intros H.
@@ -868,6 +869,10 @@ Proof.
   - intros e2 H2 S35. destruct (ue_orig e2 H2) as [e0 [H0 [B0 [_ [O1 O2]]]]].
     destruct (Z.eq_dec (e_base e2) (e_base e')) as [Eb|Eb]; [rewrite (O2 Eb) in *; exact (Hw1 S35)|].
     rewrite (O1 Eb) in *. exact (ri_w1 _ _ _ R1 e2 H0 S35).
+  - intros e2 H2 Hh. destruct (ue_orig e2 H2) as [e0 [H0 [B0 [_ [O1 O2]]]]].
+    destruct (Z.eq_dec (e_base e2) (e_base e')) as [Eb|Eb].
+    + rewrite (O2 Eb) in *. exfalso. apply N9. apply (ri_hosts _ _ _ R1 e He). destruct Sh as [_ [_ Shh]]. rewrite <- Shh. exact Hh.
+    + rewrite (O1 Eb) in *. exact (ri_hosts _ _ _ R1 e2 H0 Hh).
 Qed.
 End UpdEnc.
 
@@ -1892,6 +1897,7 @@ Proof.
   - intros e1 e2 tk H1 H2. apply eops_tracts; assumption.
   - apply mk_eops_nodup.
   - intros e He S35. cbn [rd_encs r' rd_set] in He. destruct (eops_stage e He) as [[_ K]|[_ K]]; rewrite K in S35; destruct S35; discriminate.
+  - intros e He Hh. cbn [rd_encs r' rd_set] in He. destruct (eops_stage e He) as [[_ K]|[K _]]; [exact K|contradiction].
 Qed.
 End AllocReply.
 
@@ -2167,4 +2173,397 @@ Proof.
     replace (if mode =? 2 then [lost_err rp] else res) with res by (destruct (mode =? 2) eqn:M2; [apply Z.eqb_eq in M2, M3; lia|reflexivity]).
     eapply sv_res_ok_srel; [exact S2|exact N1].
   - apply RInv_deliver; [exact H1|exact He1|]. destruct (mode =? 2); [intros _ C; cbn in C; exfalso; exact (lost_err_ne _ C)|exact N1].
+Qed.
+
+Lemma RInv_step_restart fx st ts : RInv fx st -> RInv fx (fst (step_restart fx st ts)).
+Proof.
+  intros HI. unfold step_restart. cbn [fst].
+  set (st0 := set_epoch st (Cluster.Model.zset (s_epoch st) ts (epoch_of st ts + 1))).
+  assert (H0: RInv fx st0).
+  { eapply RInv_pR; [| |exact HI]; [reflexivity|]. apply bumped_srel. apply (srel_restart st ts). }
+  set (victims := filter (fun e => (k_ts (p_rpc e) =? ts) && negb (p_run e)) (s_pool st0)).
+  assert (Hv: forall e, In e victims -> In e (s_pool st0)) by (intros e He; apply filter_In in He; tauto).
+  assert (J: forall l s, (forall e, In e l -> In e (s_pool st0)) -> RInv fx s -> PR st0 s ->
+             RInv fx (fold_left (fun s e => match find (fun x => p_id x =? p_id e) (s_pool s) with
+                                           | Some _ => deliver fx s e [cl_ErrRPC] None []
+                                           | None => s end) l s)).
+  { induction l as [|e l IH]; intros s Hl Hs Ps; cbn [fold_left]; [exact Hs|].
+    assert (Hl': forall e0, In e0 l -> In e0 (s_pool st0)) by (intros e0 H; apply Hl; right; exact H).
+    destruct (find (fun x => p_id x =? p_id e) (s_pool s)) as [x|] eqn:Fx; [|apply IH; assumption].
+    apply find_some in Fx. destruct Fx as [Hx Ex]. apply Z.eqb_eq in Ex.
+    pose proof (Hl e (or_introl eq_refl)) as He0. pose proof (rv_ids _ _ H0 e He0) as Ide.
+    assert (x = e).
+    { destruct (proj2 Ps x Hx) as [K|K]; [|lia]. exact (nodup_id_eq _ x e (rv_nodup _ _ H0) K He0 Ex). }
+    subst x. apply IH; [exact Hl'| |].
+    - apply RInv_deliver; [exact Hs|exact Hx|apply sv_res_ok_err].
+    - eapply PR_trans; [exact Ps|apply PR_deliver]. }
+  apply J; [exact Hv|exact H0|apply PR_refl].
+Qed.
+
+(* ------------------------------------------------------------------ start of a round *)
+Fixpoint ssorted (l : list Z) : Prop := match l with [] => True | x :: t => (forall y, In y t -> x < y) /\ ssorted t end.
+
+Lemma insert_sorted_in x l y : In y (Cluster.Model.insert_sorted x l) -> y = x \/ In y l.
+Proof.
+  induction l as [|a l IH]; cbn; [intros [H|[]]; auto|].
+  destruct (x <? a); [cbn; intros [H|H]; auto|]. destruct (x =? a); [auto|]. cbn. intros [H|H]; [auto|]. destruct (IH H); auto.
+Qed.
+Lemma insert_sorted_ssorted x l : ssorted l -> ssorted (Cluster.Model.insert_sorted x l).
+Proof.
+  induction l as [|a l IH]; cbn; [intros _; split; [intros y []|exact I]|]. intros [H1 H2].
+  destruct (x <? a) eqn:E1.
+  - apply Z.ltb_lt in E1. cbn. split; [|split; assumption]. intros y [<-|Hy]; [exact E1|]. specialize (H1 y Hy). lia.
+  - destruct (x =? a) eqn:E2; [cbn; split; assumption|]. apply Z.ltb_ge in E1. apply Z.eqb_neq in E2. cbn. split; [|apply IH; exact H2].
+    intros y Hy. apply insert_sorted_in in Hy. destruct Hy as [->|Hy]; [lia|exact (H1 y Hy)].
+Qed.
+Lemma ssorted_NoDup l : ssorted l -> NoDup l.
+Proof.
+  induction l as [|a l IH]; cbn; [constructor|]. intros [H1 H2]. constructor; [|apply IH; exact H2].
+  intros K. specialize (H1 a K). lia.
+Qed.
+Lemma blob_ids_NoDup st : NoDup (blob_ids st).
+Proof.
+  apply ssorted_NoDup. unfold blob_ids. induction (map fst (s_blobs st)) as [|a l IH]; cbn; [exact I|]. apply insert_sorted_ssorted. exact IH.
+Qed.
+
+Lemma add_tracts_keys st gen blob : NoDup (map pt_tk (add_tracts st gen blob)) /\ forall p, In p (add_tracts st gen blob) -> fst (pt_tk p) = blob.
+Proof.
+  unfold add_tracts, tracts_of_blob. destruct (zget (s_blobs st) blob) as [b|]; [|split; [constructor|intros p []]].
+  generalize (seq 0 (Z.to_nat (b_nt b))) (seq_NoDup (Z.to_nat (b_nt b)) 0). intros l N.
+  induction l as [|i l IH]; cbn [map flat_map]; [split; [constructor|intros p []]|].
+  inversion N as [|? ? N1 N2]; subst. destruct (IH N2) as [IH1 IH2].
+  assert (Keys: forall p, In p (flat_map (fun tk => match dget st tk with
+      | Some d => match d_rs d with Some _ => [] | None => [{| pt_tk := tk; pt_ver := d_ver d; pt_from := filter (fun h => zmem h (known_of st gen)) (d_hosts d); pt_len := -1;
+            pt_next := filter (fun h => zmem h (known_of st gen)) (d_hosts d); pt_stamps := []; pt_vmh := 0;
+            pt_done := match filter (fun h => zmem h (known_of st gen)) (d_hosts d) with [] => true | _ => false end |}] end
+      | None => [] end) (map (fun i0 => tkey blob (Z.of_nat i0)) l)) -> exists j, In j l /\ pt_tk p = tkey blob (Z.of_nat j)).
+  { intros p Hp. apply in_flat_map in Hp. destruct Hp as [tk [Htk Hp]]. apply in_map_iff in Htk. destruct Htk as [j [<- Hj]].
+    exists j. split; [exact Hj|]. destruct (dget st _) as [d|]; [|destruct Hp]. destruct (d_rs d); [destruct Hp|]. destruct Hp as [<-|[]]. reflexivity. }
+  destruct (dget st (tkey blob (Z.of_nat i))) as [d|]; [|cbn [app]; split; assumption].
+  destruct (d_rs d); [cbn [app]; split; assumption|]. cbn [app map pt_tk]. split.
+  - constructor; [|exact IH1]. intros K. apply in_map_iff in K. destruct K as [p [E Hp]]. destruct (Keys p Hp) as [j [Hj Ej]].
+    rewrite Ej in E. injection E as E. apply Nat2Z.inj in E. subst. contradiction.
+  - intros p [<-|Hp]; [reflexivity|exact (IH2 p Hp)].
+Qed.
+
+Lemma filter_owned_mk_ents_other op n rs : (forall rp o, In (rp, o) rs -> o <> op) -> filter (owned op) (mk_ents n rs) = [].
+Proof.
+  revert n. induction rs as [|[rp o] rs IH]; intros n H; cbn [mk_ents filter]; [reflexivity|].
+  unfold owned at 1. cbn [p_owner]. replace (o =? op) with false by (symmetry; apply Z.eqb_neq; exact (H rp o (or_introl eq_refl))).
+  apply IH. intros a b Hab. apply (H a b). right. exact Hab.
+Qed.
+
+Lemma RInv_new_round fx st r rs :
+  RInv fx st -> (forall r2, In r2 (s_rounds st) -> rd_op r2 <> rd_op r) -> (forall rp o, In (rp, o) rs -> o = rd_op r) ->
+  RInv1 fx (issue_all (set_rounds st (s_rounds st ++ [r])) rs) r ->
+  RInv fx (issue_all (set_rounds st (s_rounds st ++ [r])) rs).
+Proof.
+  intros HI Hrd Hrs H1. pose proof HI as [A0 A B C D E F].
+  set (s0 := set_rounds st (s_rounds st ++ [r])).
+  destruct (issue_all_spec rs s0) as [P1 [P2 P3]]. unfold pO in P3. injection P3 as Q1 Q2 Q3 Q4 Q5.
+  assert (Fr: fresh_ids (s_next st) (rd_op r) (mk_ents (s_next st) rs)).
+  { apply mk_ents_fresh. intros rp o Hin. left. exact (Hrs rp o Hin). }
+  destruct (fresh_ids_nodup _ _ _ Fr) as [FN FB].
+  constructor.
+  - rewrite P2. cbn. lia.
+  - rewrite P1, P2. cbn [s_pool s_next s0 set_rounds]. intros x Hx. apply in_app_or in Hx. destruct Hx as [Hx|Hx]; [specialize (A x Hx); lia|].
+    specialize (FB x Hx). rewrite mk_ents_length in FB. lia.
+  - rewrite P1, map_app. cbn [s_pool s_next s0 set_rounds]. apply NoDup_app_disj; [exact B|exact FN|].
+    intros i Hi1 Hi2. apply in_map_iff in Hi1. destruct Hi1 as [x [E1 Hx]]. apply in_map_iff in Hi2. destruct Hi2 as [y [E2 Hy]].
+    specialize (A x Hx). specialize (FB y Hy). lia.
+  - rewrite Q4. exact C.
+  - rewrite Q3. exact D.
+  - rewrite Q3, P1, P2. cbn [s_pool s_next s_fix s0 set_rounds]. intros f Hf. destruct (E f Hf) as [E1 E2]. split; [lia|].
+    intros x Hx Hid. apply in_app_or in Hx. destruct Hx as [Hx|Hx]; [exact (E2 x Hx Hid)|]. specialize (FB x Hx). lia.
+  - rewrite Q5. cbn [s_rounds s0 set_rounds]. intros r2 H2. apply in_app_or in H2. destruct H2 as [H2|[<-|[]]]; [|exact H1].
+    apply (RInv1_pool fx st); [|rewrite Q2; intros w Hw; exists w; auto|apply bumped_same; exact Q1|exact (F r2 H2)].
+    rewrite P1, filter_app. cbn [s_pool s_next s0 set_rounds]. rewrite filter_owned_mk_ents_other; [apply app_nil_r|].
+    intros rp o Hin. rewrite (Hrs rp o Hin). intros K. exact (Hrd r2 H2 (eq_sym K)).
+Qed.
+
+Definition stat_list (gen op : Z) (tracts : list ptr) : list (rpc * Z) :=
+  flat_map (fun p => match pt_from p with h :: _ => [(mk_stat gen h (pt_tk p) (pt_ver p), op)] | [] => [] end) tracts.
+
+Lemma fold_stat_issue gen op tracts : forall st,
+  fold_left (fun s p => match pt_from p with h :: _ => issue s (mk_stat gen h (pt_tk p) (pt_ver p)) op | [] => s end) tracts st =
+  issue_all st (stat_list gen op tracts).
+Proof.
+  induction tracts as [|p t IH]; intros st; cbn [fold_left stat_list flat_map]; [reflexivity|].
+  rewrite IH. fold (stat_list gen op t). destruct (pt_from p); [reflexivity|]. rewrite issue_all_app. reflexivity.
+Qed.
+
+Lemma stat_list_in gen op tracts rp o : In (rp, o) (stat_list gen op tracts) ->
+  o = op /\ exists p h rest, In p tracts /\ pt_from p = h :: rest /\ rp = mk_stat gen h (pt_tk p) (pt_ver p).
+Proof.
+  unfold stat_list. intros H. apply in_flat_map in H. destruct H as [p [Hp H]]. destruct (pt_from p) as [|h rest] eqn:E; [destruct H|].
+  destruct H as [H|[]]. injection H as <- <-. split; [reflexivity|]. exists p, h, rest. auto.
+Qed.
+
+Lemma find_ptr_nodup l p : NoDup (map pt_tk l) -> In p l -> find_ptr l (pt_tk p) = Some p.
+Proof.
+  induction l as [|x l IH]; intros N H; [destruct H|]. cbn [map] in N. inversion N as [|? ? N1 N2]; subst. cbn [find_ptr].
+  destruct H as [->|H]; [rewrite tk_eqb_refl; reflexivity|].
+  destruct (tk_eqb (pt_tk x) (pt_tk p)) eqn:E; [|exact (IH N2 H)].
+  apply tk_eqb_eq in E. exfalso. apply N1. rewrite E. apply in_map. exact H.
+Qed.
+
+Lemma cnt_stat_mk_ents op tk rs : forall n,
+  cnt (is_stat_for op tk) (mk_ents n rs) = length (filter (fun x => is_stat_for op tk (pent_of (fst x) (snd x))) rs).
+Proof.
+  unfold cnt. induction rs as [|[rp o] rs IH]; intros n; cbn [mk_ents filter]; [reflexivity|].
+  assert (E: is_stat_for op tk {| p_id := n; p_rpc := rp; p_owner := o; p_run := false; p_lose := false |} = is_stat_for op tk (pent_of (fst (rp, o)) (snd (rp, o)))) by reflexivity.
+  rewrite E. destruct (is_stat_for op tk (pent_of (fst (rp, o)) (snd (rp, o)))); cbn [length]; rewrite IH; reflexivity.
+Qed.
+
+Lemma stat_list_count gen op tk tracts : NoDup (map pt_tk tracts) ->
+  (length (filter (fun x => is_stat_for op tk (pent_of (fst x) (snd x))) (stat_list gen op tracts)) <= 1)%nat.
+Proof.
+  induction tracts as [|p t IH]; intros N; cbn [stat_list flat_map]; [cbn; lia|]. fold (stat_list gen op t).
+  cbn [map] in N. inversion N as [|? ? N1 N2]; subst. rewrite filter_app, app_length. specialize (IH N2).
+  destruct (tk_eqb (pt_tk p) tk) eqn:E.
+  - apply tk_eqb_eq in E. rewrite (filter_none_length _ (stat_list gen op t)).
+    + pose proof (filter_le_length (fun x => is_stat_for op tk (pent_of (fst x) (snd x))) (match pt_from p with [] => [] | h :: _ => [(mk_stat gen h (pt_tk p) (pt_ver p), op)] end)).
+      destruct (pt_from p); cbn [length] in *; lia.
+    + intros [rp o] Hy. destruct (stat_list_in _ _ _ _ _ Hy) as [_ [q [h [rest [Hq [_ ->]]]]]]. unfold is_stat_for. cbn [p_rpc pent_of fst snd].
+      rewrite rpc_tk_stat. destruct (tk_eqb (pt_tk q) tk) eqn:E2; [|apply andb_false_r].
+      apply tk_eqb_eq in E2. exfalso. apply N1. rewrite E, <- E2. apply in_map. exact Hq.
+  - rewrite (filter_none_length _ (match pt_from p with [] => [] | h :: _ => _ end)); [lia|].
+    intros [rp o] Hy. destruct (pt_from p); [destruct Hy|]. destruct Hy as [Hy|[]]. injection Hy as <- <-. unfold is_stat_for. cbn [p_rpc pent_of fst snd].
+    rewrite rpc_tk_stat, E. apply andb_false_r.
+Qed.
+
+Definition ptr_init (p : ptr) : Prop := pt_next p = pt_from p /\ (pt_from p <> [] -> pt_done p = false).
+
+Lemma add_tracts_init st gen blob p : In p (add_tracts st gen blob) -> ptr_init p.
+Proof.
+  unfold add_tracts. intros H. apply in_flat_map in H. destruct H as [tk [_ H]].
+  destruct (dget st tk) as [d|]; [|destruct H]. destruct (d_rs d); [destruct H|]. destruct H as [<-|[]].
+  split; [reflexivity|]. cbn [pt_from pt_done]. destruct (filter _ _); [intros K; contradiction|reflexivity].
+Qed.
+
+Lemma new_R1 fx s' gen term op tracts pool n :
+  NoDup (map pt_tk tracts) -> (forall p, In p tracts -> ptr_init p) -> 0 < op ->
+  (forall w, In w (s_wops s') -> wo_op w <> op) -> (forall x, In x pool -> p_owner x <> op) ->
+  s_pool s' = pool ++ mk_ents n (stat_list gen op tracts) ->
+  RInv1 fx s' {| rd_op := op; rd_gen := gen; rd_term := term; rd_phase := 1; rd_tracts := tracts; rd_encs := []; rd_done := 0 |}.
+Proof.
+  intros ND Hinit Pos Hw Hno Hp. apply RInv1_no_encs; cbn [rd_op rd_encs]; [exact Pos|exact Hw| | | |reflexivity].
+  - rewrite Hp. intros x Hx O. apply in_app_or in Hx. destruct Hx as [Hx|Hx]; [exfalso; exact (Hno x Hx O)|].
+    apply mk_ents_in in Hx. destruct (stat_list_in _ _ _ _ _ Hx) as [_ [p [h [rest [Hp0 [Hf E]]]]]]. rewrite E. left.
+    split; [reflexivity|]. split; [reflexivity|]. exists p. cbn [rd_tracts]. rewrite rpc_tk_stat.
+    split; [apply find_ptr_nodup; assumption|]. destruct (Hinit p Hp0) as [I1 I2].
+    split; [apply I2; rewrite Hf; discriminate|]. exists h, rest. split; [rewrite I1; exact Hf|reflexivity].
+  - intros tk. rewrite Hp, cnt_app. rewrite (cnt_zero_forall _ pool).
+    + rewrite cnt_stat_mk_ents. pose proof (stat_list_count gen op tk tracts ND). lia.
+    + intros x Hx. unfold is_stat_for. rewrite (owned_false_of _ x (Hno x Hx)). reflexivity.
+  - rewrite Hp, cnt_app. rewrite !cnt_zero_forall; [lia| |].
+    + intros x Hx. apply mk_ents_in in Hx. destruct (stat_list_in _ _ _ _ _ Hx) as [_ [p [h [rest [_ [_ E]]]]]].
+      unfold is_alloc_for, kind_is. rewrite E. apply andb_false_r.
+    + intros x Hx. unfold is_alloc_for. rewrite (owned_false_of _ x (Hno x Hx)). reflexivity.
+Qed.
+
+Lemma op_fresh_spec st op : op_fresh st op = true ->
+  0 < op /\ (forall w, In w (s_wops st) -> wo_op w <> op) /\ (forall r, In r (s_rounds st) -> rd_op r <> op) /\
+  (forall x, In x (s_pool st) -> p_owner x <> op).
+Proof.
+  unfold op_fresh. intros H. apply andb_true_iff in H. destruct H as [H H4]. apply andb_true_iff in H. destruct H as [H H3].
+  apply andb_true_iff in H. destruct H as [H1 H2]. apply Z.ltb_lt in H1. apply negb_true_iff in H2, H3, H4.
+  split; [exact H1|]. split; [|split].
+  - intros w Hw E. assert (existsb (fun w => wo_op w =? op) (s_wops st) = true) by (apply existsb_exists; exists w; split; [exact Hw|apply Z.eqb_eq; exact E]). congruence.
+  - intros r Hr E. assert (existsb (fun r => rd_op r =? op) (s_rounds st) = true) by (apply existsb_exists; exists r; split; [exact Hr|apply Z.eqb_eq; exact E]). congruence.
+  - intros x Hx E. assert (existsb (fun e => p_owner e =? op) (s_pool st) = true) by (apply existsb_exists; exists x; split; [exact Hx|apply Z.eqb_eq; exact E]). congruence.
+Qed.
+
+Definition pR2 (st : state) := (pR st, s_reps st).
+
+Lemma RInv_round_start fx st op : RInv fx st -> op_fresh st op = true -> RInv fx (fst (round_start st op)).
+Proof.
+  intros HI Hop. destruct (op_fresh_spec st op Hop) as [Pos [Fw [Frd Fp]]]. unfold round_start.
+  match goal with |- context [fold_left ?f (blob_ids st) _] => set (F := f) end.
+  assert (J: forall l acc, NoDup l ->
+             (pR2 (fst (fst acc)) = pR2 st /\ NoDup (map pt_tk (snd (fst acc))) /\
+              (forall p, In p (snd (fst acc)) -> ~ In (fst (pt_tk p)) l) /\ (forall p, In p (snd (fst acc)) -> ptr_init p)) ->
+             pR2 (fst (fst (fold_left F l acc))) = pR2 st /\ NoDup (map pt_tk (snd (fst (fold_left F l acc)))) /\
+             (forall p, In p (snd (fst (fold_left F l acc))) -> ptr_init p)).
+  { induction l as [|a l IH]; intros acc N Hacc; cbn [fold_left]; [tauto|].
+    inversion N as [|? ? N1 N2]; subst. apply IH; [exact N2|].
+    destruct acc as [[s a0] o]. cbn [fst snd] in Hacc. destruct Hacc as [H1 [H2 [H3 H4]]]. unfold F. cbn [fst snd].
+    assert (Keep: pR2 s = pR2 st /\ NoDup (map pt_tk a0) /\ (forall p, In p a0 -> ~ In (fst (pt_tk p)) l) /\ (forall p, In p a0 -> ptr_init p)).
+    { split; [exact H1|]. split; [exact H2|]. split; [|exact H4]. intros p Hp K. apply (H3 p Hp). right. exact K. }
+    destruct (zget (s_blobs s) a); [|exact Keep].
+    destruct (b_cls b =? b_tgt b); [exact Keep|].
+    destruct (all_rs s a).
+    - pose proof (fr_update_class _ pR2 ltac:(fr) ltac:(fr) s op (s_term st) a (b_tgt b)) as M.
+      destruct (update_class s op (s_term st) a (b_tgt b)) as [s' c']. cbn [fst snd] in *.
+      destruct Keep as [_ K2]. split; [rewrite M; exact H1|exact K2].
+    - destruct (b_cls b =? c14_ClassREPLICATED); cbn [fst snd]; [|exact Keep].
+      destruct (add_tracts_keys s (s_gen st) a) as [AK1 AK2]. split; [exact H1|]. split; [|split].
+      + rewrite map_app. apply NoDup_app_disj; [exact H2|exact AK1|].
+        intros k Hk1 Hk2. apply in_map_iff in Hk1. destruct Hk1 as [p [E1 Hp]]. apply in_map_iff in Hk2. destruct Hk2 as [q [E2 Hq]].
+        apply (H3 p Hp). left. rewrite E1, <- E2. symmetry. exact (AK2 q Hq).
+      + intros p Hp K. apply in_app_or in Hp. destruct Hp as [Hp|Hp]; [apply (H3 p Hp); right; exact K|].
+        rewrite (AK2 p Hp) in K. contradiction.
+      + intros p Hp. apply in_app_or in Hp. destruct Hp as [Hp|Hp]; [exact (H4 p Hp)|eapply add_tracts_init; exact Hp]. }
+  specialize (J (blob_ids st) (st, [], []) (blob_ids_NoDup st)). cbn [fst snd] in J.
+  destruct J as [J1 [J2 J3]]; [split; [reflexivity|]; split; [constructor|]; split; intros p []|].
+  destruct (fold_left F (blob_ids st) (st, [], [])) as [[st1 tracts] obs]. cbn [fst snd] in *.
+  assert (JR: pR st1 = pR st) by (exact (f_equal fst J1)).
+  assert (Jreps: s_reps st1 = s_reps st) by (exact (f_equal snd J1)).
+  assert (B1: RInv fx st1) by (exact (RInv_same fx st st1 JR Jreps HI)).
+  pose proof JR as JR'. unfold pR in JR'. injection JR' as Jpool Jnext Jrounds Jwops Jfix Jnfix.
+  set (r := {| rd_op := op; rd_gen := s_gen st; rd_term := s_term st; rd_phase := 1; rd_tracts := tracts; rd_encs := []; rd_done := 0 |}).
+  rewrite fold_stat_issue.
+  assert (B3: RInv fx (issue_all (set_rounds st1 (s_rounds st1 ++ [r])) (stat_list (s_gen st) op tracts))).
+  { apply (RInv_new_round fx st1 r).
+    - exact B1.
+    - rewrite Jrounds. exact Frd.
+    - intros rp o Hin. exact (proj1 (stat_list_in _ _ _ _ _ Hin)).
+    - destruct (issue_all_spec (stat_list (s_gen st) op tracts) (set_rounds st1 (s_rounds st1 ++ [r]))) as [P1 [P2 P3]].
+      unfold pO in P3. injection P3 as Q1 Q2 Q3 Q4 Q5.
+      apply (new_R1 fx _ (s_gen st) (s_term st) op tracts (s_pool st1) (s_next st1)); [exact J2|exact J3|exact Pos| | |exact P1].
+      + rewrite Q2. cbn [s_wops set_rounds]. rewrite Jwops. exact Fw.
+      + rewrite Jpool. exact Fp. }
+  destruct (all_stats_done r) eqn:AD; [|exact B3].
+  apply RInv_after_stats; [exact B3| |reflexivity|exact AD].
+  destruct (issue_all_spec (stat_list (s_gen st) op tracts) (set_rounds st1 (s_rounds st1 ++ [r]))) as [_ [_ P3]].
+  unfold pO in P3. injection P3 as _ _ _ _ Q5. rewrite Q5. cbn [s_rounds set_rounds]. apply in_or_app. right. left. reflexivity.
+Qed.
+
+(* ------------------------------------------------------------------ steps *)
+Lemma RInv_step fx st ev : ev_run ev = true -> RInv fx st -> RInv fx (fst (step_fx fx st ev)).
+Proof.
+  intros Hev HI0. unfold step_fx.
+  assert (HI: RInv fx (begin_event st)) by (eapply RInv_same; [| |exact HI0]; reflexivity). set (s := begin_event st) in *.
+  destruct ev as [|c a]; [exact HI|]. cbn [ev_run existsb] in Hev.
+  destruct (c =? 1) eqn:C1; [apply Z.eqb_eq in C1; subst c; discriminate|].
+  destruct (c =? 2) eqn:C2; [apply Z.eqb_eq in C2; subst c; discriminate|].
+  destruct (c =? 20) eqn:C20; [apply Z.eqb_eq in C20; subst c; discriminate|].
+  destruct (c =? 21) eqn:C21; [apply Z.eqb_eq in C21; subst c; discriminate|].
+  destruct (c =? 22).
+  { destruct a as [|blob [|tract [|]]]; try exact HI. destruct (dget s _); exact HI. }
+  destruct (c =? 3).
+  { destruct a as [|op [|cli [|blob [|tract [|off [|len [|wid [|]]]]]]]]; try exact HI.
+    destruct (negb (op_fresh s op) || (len <=? 0)) eqn:Fo; cbn [fst]; [exact HI|].
+    apply orb_false_iff in Fo. destruct Fo as [Fo _]. apply negb_false_iff in Fo. destruct (op_fresh_spec s op Fo) as [Pos [Fw [Frd Fp]]].
+    apply RInv_issue_other; [|intros r Hr; exact (Frd r Hr)].
+    match goal with |- RInv fx (set_ghost ?s0 _ _ _ _) => cut (RInv fx s0); [intros B; eapply RInv_same; [| |exact B]; reflexivity|] end.
+    pose proof HI as [A0 A B C D E F]. constructor; cbn [s_pool s_next s_nfix s_fix s_rounds set_cli]; try assumption.
+    intros r Hr. pose proof (F r Hr) as R1. destruct R1 as [Q1 Q2 Q3 Q4 Q5 Q6 Q7 Q8 Q9 Q10 Q11 Q12].
+    constructor; cbn [s_pool s_wops set_cli]; try assumption.
+    intros w Hw. apply in_app_or in Hw. destruct Hw as [Hw|[<-|[]]]; [exact (Q2 w Hw)|]. cbn [wo_op]. intros K. exact (Frd r Hr (eq_sym K)). }
+  destruct (c =? 6).
+  { destruct a as [|blob [|tract [|ver [|badts [|]]]]]; try exact HI. cbn [fst]. apply RInv_start_fix; [exact HI|].
+    split; [exact (rv_next _ _ HI)|]. intros x Hx Hid. pose proof (rv_ids _ _ HI x Hx). lia. }
+  destruct (c =? 7).
+  { destruct a; [exact HI|apply RInv_step_exec; exact HI]. }
+  destruct (c =? 9).
+  { destruct a as [|ts [|]]; try exact HI. apply RInv_step_restart; exact HI. }
+  destruct (c =? 10). { cbn [fst]. eapply RInv_same; [| |exact HI]; reflexivity. }
+  destruct (c =? 11).
+  { destruct a as [|ts [|]]; try exact HI. cbn [fst]. eapply RInv_same; [| |exact HI]; reflexivity. }
+  destruct (c =? 80).
+  { destruct a as [|op [|]]; try exact HI.
+    destruct (negb (op_fresh s op)) eqn:Fo; [exact HI|]. apply negb_false_iff in Fo.
+    pose proof (RInv_round_start fx s op HI Fo) as M. destruct (round_start s op) as [st1 obs]. exact M. }
+  destruct (c =? 30).
+  { destruct a as [|blob [|tract [|off [|len [|nt tries]]]]]; exact HI. }
+  destruct (c =? 81) eqn:C81; [apply Z.eqb_eq in C81; subst c; discriminate|].
+  destruct (c =? 82); [exact HI|].
+  destruct (c =? 31).
+  { destruct a as [|blob [|]]; try exact HI. destruct (Cluster.Model.zget _ _); exact HI. }
+  exact HI.
+Qed.
+
+Lemma RInv_run fx evs : forallb ev_run evs = true -> forall st, RInv fx st -> RInv fx (run_state_fx fx st evs).
+Proof.
+  induction evs as [|ev evs IH]; intros H st HI; cbn; [exact HI|].
+  cbn in H. apply andb_true_iff in H. destruct H as [H1 H2]. apply IH; [exact H2|]. apply RInv_step; assumption.
+Qed.
+
+(* ------------------------------------------------------------------ setup *)
+Lemma pR_setup_step fx st ev : ev_setup ev = true -> pR (fst (step_fx fx st ev)) = pR st.
+Proof.
+  intros Hev. unfold step_fx. set (s := begin_event st). change (pR st) with (pR s).
+  destruct ev as [|c a]; [reflexivity|]. cbn [ev_setup existsb] in Hev.
+  destruct (c =? 1) eqn:C1.
+  { destruct a as [|nts [|ncli flags]]; try reflexivity. destruct (negb (s_nts s =? 0) || _); reflexivity. }
+  destruct (c =? 2) eqn:C2.
+  { destruct a as [|blob [|nt [|tgt [|]]]]; try reflexivity. destruct (Cluster.Model.zget _ _); reflexivity. }
+  destruct (c =? 20) eqn:C20.
+  { destruct a as [|blob [|tract [|ver [|nh hosts]]]]; try reflexivity.
+    destruct (dget s (tkey blob tract)); cbn [orb]; [reflexivity|]. destruct (negb _); reflexivity. }
+  destruct (c =? 21) eqn:C21.
+  { destruct a as [|blob [|tract [|wid [|off [|len [|isw [|]]]]]]]; try reflexivity.
+    destruct (dget s _); cbn [fst]; [|reflexivity].
+    rewrite fold_fr; [reflexivity|]. intros s0 x. destruct (isw =? 0); [destruct (rget _ _); reflexivity|apply (fr_ts_write _ pR); fr]. }
+  destruct (c =? 22) eqn:C22.
+  { destruct a as [|blob [|tract [|]]]; try reflexivity. destruct (dget s _); reflexivity. }
+  exfalso. cbn in Hev. discriminate.
+Qed.
+
+Lemma pR_setup_run fx evs : forallb ev_setup evs = true -> forall st, pR (run_state_fx fx st evs) = pR st.
+Proof.
+  induction evs as [|ev evs IH]; intros H st; cbn; [reflexivity|].
+  cbn in H. apply andb_true_iff in H. destruct H as [H1 H2]. rewrite IH; [|exact H2]. apply pR_setup_step. exact H1.
+Qed.
+
+Lemma RInv_quiet fx st : pR st = pR init_state -> RInv fx st.
+Proof.
+  unfold pR. cbn. intros H. injection H as H1 H2 H3 H4 H5 H6.
+  constructor; rewrite ?H1, ?H2, ?H3, ?H5, ?H6; try (intros ? []); try lia. constructor.
+Qed.
+
+(* every state reached by setup events followed by run-phase events satisfies the round/pool invariant *)
+Theorem RInv_reachable fx setup evs : forallb ev_setup setup = true -> forallb ev_run evs = true ->
+  RInv fx (run_state_fx fx init_state (setup ++ evs)).
+Proof.
+  intros Hs He. rewrite run_state_app. apply RInv_run; [exact He|]. apply RInv_quiet. apply pR_setup_run. exact Hs.
+Qed.
+
+(* generic induction over the deliveries of a restart *)
+Lemma restart_ind fx st ts (P : state -> Prop) :
+  RInv fx st ->
+  P (set_epoch st (Cluster.Model.zset (s_epoch st) ts (epoch_of st ts + 1))) ->
+  (forall s e, RInv fx s -> In e (s_pool s) -> P s -> P (deliver fx s e [cl_ErrRPC] None [])) ->
+  P (fst (step_restart fx st ts)).
+Proof.
+  intros HI P0 Hstep. unfold step_restart. cbn [fst].
+  set (st0 := set_epoch st (Cluster.Model.zset (s_epoch st) ts (epoch_of st ts + 1))) in *.
+  assert (H0: RInv fx st0).
+  { eapply RInv_pR; [| |exact HI]; [reflexivity|]. apply bumped_srel. apply (srel_restart st ts). }
+  set (victims := filter (fun e => (k_ts (p_rpc e) =? ts) && negb (p_run e)) (s_pool st0)).
+  assert (Hv: forall e, In e victims -> In e (s_pool st0)) by (intros e He; apply filter_In in He; tauto).
+  assert (J: forall l s, (forall e, In e l -> In e (s_pool st0)) -> RInv fx s -> PR st0 s -> P s ->
+             P (fold_left (fun s e => match find (fun x => p_id x =? p_id e) (s_pool s) with
+                                      | Some _ => deliver fx s e [cl_ErrRPC] None []
+                                      | None => s end) l s)).
+  { induction l as [|e l IH]; intros s Hl Hs Ps Pp; cbn [fold_left]; [exact Pp|].
+    assert (Hl': forall e0, In e0 l -> In e0 (s_pool st0)) by (intros e0 H; apply Hl; right; exact H).
+    destruct (find (fun x => p_id x =? p_id e) (s_pool s)) as [x|] eqn:Fx; [|apply IH; assumption].
+    apply find_some in Fx. destruct Fx as [Hx Ex]. apply Z.eqb_eq in Ex.
+    pose proof (Hl e (or_introl eq_refl)) as He0. pose proof (rv_ids _ _ H0 e He0) as Ide.
+    assert (x = e).
+    { destruct (proj2 Ps x Hx) as [K|K]; [|lia]. exact (nodup_id_eq _ x e (rv_nodup _ _ H0) K He0 Ex). }
+    subst x. apply IH; [exact Hl'| | |].
+    - apply RInv_deliver; [exact Hs|exact Hx|apply sv_res_ok_err].
+    - eapply PR_trans; [exact Ps|apply PR_deliver].
+    - apply Hstep; assumption. }
+  apply J; [exact Hv|exact H0|apply PR_refl|exact P0].
+Qed.
+
+(* the state of stat_reply between the update of the round and the (possible) start of a fixVersion task *)
+Lemma rr_stat_mid fx st pe r p pn dn :
+  RInv fx st -> In pe (s_pool st) -> p_owner pe = rd_op r -> In r (s_rounds st) -> k_kind (p_rpc pe) = K_CtlStat ->
+  rd_phase r = 1 -> find_ptr (rd_tracts r) (rpc_tk (p_rpc pe)) = Some p -> pt_tk pn = rpc_tk (p_rpc pe) ->
+  RInv fx (set_rounds (rm_pool st pe) (upd_round (s_rounds (rm_pool st pe)) (rd_set r 1 (upd_ptr (rd_tracts r) pn) [] dn))).
+Proof.
+  intros HI Hpe Hown Hr Hk Hph Fp T1.
+  set (r' := rd_set r 1 (upd_ptr (rd_tracts r) pn) [] dn).
+  set (s1 := set_rounds (rm_pool st pe) (upd_round (s_rounds (rm_pool st pe)) r')).
+  apply (RInv_round_final fx st s1 r' pe []); try reflexivity; try assumption.
+  - unfold s1. cbn [s_pool set_rounds rm_pool set_pool]. rewrite app_nil_r. reflexivity.
+  - intros i x Hi. destruct i; discriminate.
+  - cbn. lia.
+  - left. reflexivity.
+  - apply (stat_R1 fx st pe r p HI Hpe Hown Hr Hk Hph Fp pn s1 [] dn); [exact T1|reflexivity|unfold s1; cbn [s_pool set_rounds rm_pool set_pool]; rewrite app_nil_r; reflexivity|cbn; lia|intros x []].
 Qed.
